@@ -38,6 +38,14 @@ def unhex (s : String) : Except String Bytes := unhexAux s.toList []
 
 def hexField (j : Json) (k : String) : Except String Bytes := do unhex (← strField j k)
 
+/-- hex field that may be absent (Go `omitempty` on an empty string) -/
+def hexFieldD (j : Json) (k : String) : Except String Bytes :=
+  match j.getObjVal? k with
+  | .ok (.str s) => unhex s
+  | .ok .null => pure []
+  | .error _ => pure []
+  | .ok _ => throw s!"field {k}: not a hex string"
+
 def optHexField (j : Json) (k : String) : Except String (Option Bytes) :=
   match j.getObjVal? k with
   | .ok (.str s) => do pure (some (← unhex s))
@@ -147,11 +155,11 @@ def payloadOfJson (j : Json) : Except String Payload := do
   else if kind = "reverted" then
     pure (.revertedTransaction (← transactionOfJson (← field j "reverted")) (← transactionOfJson (← field j "revert")))
   else if kind = "savedMetadata" then
-    pure (.savedMetadata (← hexField j "targetType") (← targetIdOfJson j) (← metadataOfJson (optField j "metadata")))
+    pure (.savedMetadata (← hexFieldD j "targetType") (← targetIdOfJson j) (← metadataOfJson (optField j "metadata")))
   else if kind = "deletedMetadata" then
-    pure (.deletedMetadata (← hexField j "targetType") (← targetIdOfJson j) (← hexField j "key"))
+    pure (.deletedMetadata (← hexFieldD j "targetType") (← targetIdOfJson j) (← hexFieldD j "key"))
   else if kind = "insertedSchema" then
-    pure (.insertedSchema (← hexField j "schema"))
+    pure (.insertedSchema (← hexFieldD j "schema"))
   else throw s!"unknown payload kind {kind}"
 
 def logOfJson (j : Json) : Except String Log := do
